@@ -168,6 +168,15 @@ def make_program(work, params):
                     n += 1
                     if (r is not None) != (comm.Get_rank() == root):
                         raise AssertionError("getBlockFromDict returned data on a non-root rank or nothing on the root")
+            # figure communicators that are NOT the grid's own communicator: halves of the world (when it has >= 4 ranks),
+            # numbered in the opposite order to the world
+            sub = comm.Split(rank % 2 if comm.Get_size() >= 4 else 0, -rank)
+            for root in range(sub.Get_size()):
+                for d in ({}, {0: 0}, {0: shape[0] - 1, 2: 1}, {3: range(0, shape[3])}):
+                    r = g.getBlockFromDict(d, sub, root)
+                    n += 1
+                    if (r is not None) != (sub.Get_rank() == root):
+                        raise AssertionError("getBlockFromDict on a sub-communicator returned data on a non-root rank or nothing on its root")
         return n
 
     def collector_prog(rank):
@@ -217,6 +226,11 @@ def make_program(work, params):
             grid.getMin(draw)
             grid.getMax(draw, 0, 0)
             grid.getMax(draw, [0, 3], [1, 2])
+            # what the plotting loop does: every rank (the drawing one with its empty block included) gathers on the drawing rank
+            for d in ({0: 0}, {3: 1, 2: 0}, {1: 2}):
+                r = grid.getBlockFromDict(d, comm, draw)
+                if (r is not None) != (rank == draw):
+                    raise AssertionError("getBlockFromDict: exactly the drawing rank must receive the slice")
         grid.saveGridValues()
         grid.setLayout('poloidal')
         grid.restoreGridValues()
